@@ -1,6 +1,7 @@
 package main
 
 import (
+	_ "embed"
 	"encoding/json"
 	"flag"
 	"fmt"
@@ -91,7 +92,7 @@ func cmdCheck(args []string) int {
 	start := time.Now()
 	r := newReport(c.ID, *tier)
 	r.Level = c.Level
-	r.Explanation = c.Explanation
+	r.Explanation = c.Explanation + addedRules[c.ID]
 	r.NotDecided = c.NotDecided
 	r.Assumptions = append([]string{}, c.Assumptions...)
 	r.Assumptions = append(r.Assumptions,
@@ -226,3 +227,14 @@ func joinSorted(m map[string]bool) string {
 	sort.Strings(s)
 	return strings.Join(s, ", ")
 }
+
+//go:embed added_rules.json
+var addedRulesJSON []byte
+
+// addedRules: per property, the rules added after the seeded rounds 2 and 3 (appended to the explanation in the
+// evidence; tools/gen_manifest.py reads the same file for the MANIFEST).
+var addedRules = func() map[string]string {
+	m := map[string]string{}
+	_ = json.Unmarshal(addedRulesJSON, &m)
+	return m
+}()
